@@ -335,4 +335,63 @@ theorem shl_shr_of_mod (v s : Nat) (h : v % 2 ^ s = 0) : (v >>> s) <<< s = v := 
   rw [Nat.shiftLeft_eq, Nat.shiftRight_eq_div_pow]
   exact Nat.div_mul_cancel (Nat.dvd_of_mod_eq_zero h)
 
+/-! ### reset: every bit-field of `_bitfields` (hidden or not) contributes its reset value -/
+
+theorem resetFold_testBit (fs : List Field) (acc k : Nat) :
+    (fs.foldl (fun acc f => acc ||| ((f.reset &&& mask f.width) <<< f.offset)) acc).testBit k = true ↔
+      (acc.testBit k = true ∨ ∃ (i : Nat) (g : Field), fs[i]? = some g ∧ g.offset ≤ k ∧ k < g.offset + g.width ∧
+        g.reset.testBit (k - g.offset) = true) := by
+  induction fs generalizing acc with
+  | nil => simp
+  | cons f fs ih =>
+    simp only [List.foldl_cons]
+    rw [ih]
+    have hx : ((f.reset &&& mask f.width) <<< f.offset).testBit k = true ↔
+        (f.offset ≤ k ∧ k < f.offset + f.width ∧ f.reset.testBit (k - f.offset) = true) := by
+      simp only [Nat.testBit_shiftLeft, Nat.testBit_and, testBit_mask, Bool.and_eq_true, decide_eq_true_eq, ge_iff_le]
+      constructor
+      · rintro ⟨h1, h2, h3⟩; exact ⟨h1, by omega, h2⟩
+      · rintro ⟨h1, h2, h3⟩; exact ⟨h1, h3, by omega⟩
+    rw [Nat.testBit_or, Bool.or_eq_true, hx]
+    constructor
+    · rintro ((h | h) | ⟨i, g, h1, h2⟩)
+      · exact Or.inl h
+      · exact Or.inr ⟨0, f, by simp, h⟩
+      · exact Or.inr ⟨i + 1, g, by simpa using h1, h2⟩
+    · rintro (h | ⟨i, g, h1, h2⟩)
+      · exact Or.inl (Or.inl h)
+      · cases i with
+        | zero => simp at h1; subst h1; exact Or.inl (Or.inr h2)
+        | succ i => exact Or.inr ⟨i, g, by simpa using h1, h2⟩
+
+/-- the slice of the reset value at a bit-field is that bit-field's reset value, provided the other bit-fields are disjoint
+    from it and the register-level reset value has no bits there -/
+theorem resetValue_slice (r : Reg) (j : Nat) (f : Field) (hf : r.fields[j]? = some f)
+    (hd : r.fields.Pairwise (fun f g => f.offset + f.width ≤ g.offset ∨ g.offset + g.width ≤ f.offset))
+    (hraw : ∀ k, f.offset ≤ k → k < f.offset + f.width → r.resetRaw.testBit k = false) :
+    (r.resetValue >>> f.offset) &&& mask f.width = f.reset &&& mask f.width := by
+  apply Nat.eq_of_testBit_eq
+  intro t
+  rw [slice_testBit, Nat.testBit_and, testBit_mask]
+  by_cases ht : t < f.width
+  · simp only [ht, decide_true, Bool.and_true]
+    rw [Bool.eq_iff_iff]
+    unfold Reg.resetValue
+    rw [resetFold_testBit]
+    constructor
+    · rintro (h | ⟨i, g, h1, h2, h3, h4⟩)
+      · rw [hraw _ (by omega) (by omega)] at h; cases h
+      · by_cases hij : i = j
+        · subst hij
+          rw [hf] at h1; cases h1
+          have e : f.offset + t - f.offset = t := by omega
+          rw [e] at h4; exact h4
+        · have := pairwise_disjoint_ne r.fields i j g f hd h1 hf hij
+          omega
+    · intro h
+      refine Or.inr ⟨j, f, hf, by omega, by omega, ?_⟩
+      have e : f.offset + t - f.offset = t := by omega
+      rw [e]; exact h
+  · simp [ht]
+
 end SpsdkVerif.Regs
